@@ -245,7 +245,9 @@ Judge == i > 0 =>
   LET r == Recs[i]
       d == IF NeedsDirs(r) THEN Dirs(r) ELSE << >>
       pre == Pre(r, d)
-  IN IF pre # {} THEN PrintT(<< "M", r.id, pre >>)
+  IN \* the source's own edge table is the premise of every edge-related decision below (and C02's subject)
+     IF ~IsEdgeTable(r.mesh, r.srcE) THEN PrintT(<< "V", r.id, { "SourceEdgeTable" }, [ c \in { "SourceEdgeTable" } |-> "none" ] >>)
+     ELSE IF pre # {} THEN PrintT(<< "M", r.id, pre >>)
      ELSE IF NeedsDirs(r) /\ KnnTie(r, d) THEN PrintT(<< "S", r.id, "tie" >>)
      ELSE LET f == Failed(r, d)
               dr == Drift(r, f)
